@@ -229,6 +229,46 @@ def py_add_required(req, lst):
     return lst
 
 
+def allowed_option_names(cls):
+    """the literal tuple of `for opt in self.options: if opt not in (<names>): raise ...` in set_numeric_dict
+    (None when the loop is absent), cross-checked by probing the class"""
+    import ast
+    import inspect
+    import textwrap
+    tree = ast.parse(textwrap.dedent(inspect.getsource(cls.set_numeric_dict)))
+    found = []
+    for node in ast.walk(tree):
+        if isinstance(node, ast.For) and isinstance(node.iter, ast.Attribute) and node.iter.attr == "options" \
+                and isinstance(node.target, ast.Name):
+            _need(len(node.body) == 1 and isinstance(node.body[0], ast.If) and not node.body[0].orelse
+                  and len(node.body[0].body) == 1 and isinstance(node.body[0].body[0], ast.Raise),
+                  "%s.set_numeric_dict: loop over options has an unknown shape" % cls.__name__)
+            t = node.body[0].test
+            _need(isinstance(t, ast.Compare) and isinstance(t.left, ast.Name) and t.left.id == node.target.id
+                  and len(t.ops) == 1 and isinstance(t.ops[0], ast.NotIn) and isinstance(t.comparators[0], (ast.Tuple, ast.List))
+                  and all(isinstance(e, ast.Constant) and isinstance(e.value, str) for e in t.comparators[0].elts),
+                  "%s.set_numeric_dict: test on an option has an unknown shape" % cls.__name__)
+            found.append([e.value for e in t.comparators[0].elts])
+    _need(len(found) <= 1, "%s.set_numeric_dict: several loops over options" % cls.__name__)
+    allowed = found[0] if found else None
+    # probes: a foreign option name is refused exactly when the tuple exists; a permutation of the defaults is fine
+    dflt = list(cls.model_fields["options"].default)
+
+    def accepted(opts):
+        try:
+            cls(options=opts)
+            return True
+        except Exception:
+            return False
+    _need(accepted(list(reversed(dflt))), "%s: a permutation of the default options is refused" % cls.__name__)
+    _need(accepted(dflt + ["zzz_not_an_option"]) == (allowed is None),
+          "%s: probing with a foreign option name contradicts the source pattern" % cls.__name__)
+    if allowed is not None:
+        _need(all(a == a.lower().strip() for a in allowed) and set(dflt) <= set(allowed),
+              "%s: allowed option names %r do not cover the defaults" % (cls.__name__, allowed))
+    return allowed
+
+
 def class_info(cls, BaseSettings, seen):
     """-> dict describing one settings class (recursively registers nested classes into `seen`)"""
     name = cls.__name__
@@ -309,6 +349,7 @@ def class_info(cls, BaseSettings, seen):
             cands = [sorted(k.lower() for k in d) for d in (const.season_num, const.weekday_num)]
             _need(strs in cands, "%s: set_numeric_dict iterates %r, string fields are %r" % (name, cands, strs))
             v["names"] = strs
+            v["allowed"] = allowed_option_names(cls)
         if v["vid"] == "VWavelet":
             import pywt
             v["names"] = list(pywt.wavelist(kind="discrete"))
@@ -443,7 +484,8 @@ def coq_base(f):
 
 def coq_vid(v):
     if v["vid"] == "VOptions":
-        return "(VOptions [%s])" % "; ".join(coq_str(n) for n in v["names"])
+        al = "None" if v["allowed"] is None else "(Some [%s])" % "; ".join(coq_str(n) for n in v["allowed"])
+        return "(VOptions [%s] %s)" % ("; ".join(coq_str(n) for n in v["names"]), al)
     if v["vid"] == "VWavelet":
         return "(VWavelet wavelet_names wavelet_modes)"
     return v["vid"]
